@@ -5,8 +5,8 @@
    C0 (0x00-0x1F), DEL (0x7F), C1 (0x80-0x9F).  [wc] is wcwidth, any function
    ([wc_ascii wc]: printable ASCII has width 1); [sty] is the style machinery. *)
 From Coq Require Import ZArith List Bool.
-From PTK Require Import Lib.Sx Lib.Py Gen.C10_DisplayMappings Model.C13_Utf8 Model.C10_Screen Model.C10_Producers Model.C10_Wire Model.C10_Print
-     Proofs.C10_TableFacts Proofs.C10_CopyFacts Proofs.C10_RenderFacts Proofs.C10_ProducerFacts Proofs.C10_WireFacts Proofs.C10_PrintFacts.
+From PTK Require Import Lib.Sx Lib.Py Gen.C10_DisplayMappings Model.C13_Utf8 Model.C10_Screen Model.C10_Producers Model.C10_Wire Model.C10_Print Model.C10_Procs
+     Proofs.C10_TableFacts Proofs.C10_CopyFacts Proofs.C10_RenderFacts Proofs.C10_ProducerFacts Proofs.C10_WireFacts Proofs.C10_PrintFacts Proofs.C10_ProcFacts Proofs.C10_SiteFacts.
 Import ListNotations.
 Open Scope Z_scope.
 
@@ -329,3 +329,122 @@ Example C10_char_multichar_not_sanitised :
   exists s, control_free (cch (char_init (fun _ => 1) s [])) = false.
 Proof. exact char_init_multichar_not_sanitised. Qed.
 Print Assumptions C10_char_multichar_not_sanitised.
+
+(* ---------------------------------------------------------------- round 6: the remaining producers *)
+
+(* The whole processor chain of a BufferControl (Model/C10_Procs.v: _MergedProcessor with the
+   composed source_to_display, Highlight(Incremental)Search, HighlightMatchingBracket,
+   DisplayMultipleCursors, Tabs, ShowLeading/TrailingWhiteSpace, AfterInput, ShowArg,
+   Conditional/Dynamic wrappers, and the round 3/4 processors at any place): whenever the chain
+   does not raise, no produced fragment is marked unless a style the application supplied is. *)
+Theorem C10_chain_unmarked : forall lexstyle qs text ls,
+  unmarked_style lexstyle -> Forall q_unmarked qs ->
+  buffer_lines2 lexstyle qs text = Some ls -> Forall all_unmarked ls.
+Proof. exact buffer_lines2_unmarked. Qed.
+Print Assumptions C10_chain_unmarked.
+
+(* ... hence for ANY buffer text through ANY such chain nothing is passed through raw and every
+   control character of the output stream was generated by the renderer. *)
+Theorem C10_plain_buffer_chain : forall wc sty g lexstyle qs text crow ccol ls app width ri x y last vis,
+  wc_ascii wc -> unmarked_style lexstyle -> Forall q_unmarked qs ->
+  buffer_content lexstyle qs text crow ccol = Some ls ->
+  forall o c, In (o, c) (tagged_stream (rendered_tokens wc sty g None ls app width ri x y last vis)) ->
+  (o = FromZWE -> False) /\ (is_control c = true -> o = FromRenderer).
+Proof. exact plain_buffer2_stream. Qed.
+Print Assumptions C10_plain_buffer_chain.
+
+(* Margins (NumberedMargin, ScrollbarMargin with any arrow symbols, PromptMargin with unmarked
+   application fragments) through Window.render_margin and _copy_body. *)
+Theorem C10_numbered_margin : forall wc sty g rel til w cur disp wh app width ri x y last vis,
+  wc_ascii wc ->
+  forall o c, In (o, c) (tagged_stream (rendered_tokens wc sty g None
+        (margin_lines (numbered_margin rel til w cur disp wh)) app width ri x y last vis)) ->
+  (o = FromZWE -> False) /\ (is_control c = true -> o = FromRenderer).
+Proof. exact numbered_margin_stream. Qed.
+Print Assumptions C10_numbered_margin.
+
+Theorem C10_scrollbar_margin : forall wc sty g arrows up down wh top h app width ri x y last vis,
+  wc_ascii wc ->
+  forall o c, In (o, c) (tagged_stream (rendered_tokens wc sty g None
+        (margin_lines (scrollbar_margin arrows up down wh top h)) app width ri x y last vis)) ->
+  (o = FromZWE -> False) /\ (is_control c = true -> o = FromRenderer).
+Proof. exact scrollbar_margin_stream. Qed.
+Print Assumptions C10_scrollbar_margin.
+
+Theorem C10_prompt_margin : forall wc sty g prompt conts app width ri x y last vis,
+  wc_ascii wc -> all_unmarked prompt -> Forall all_unmarked conts ->
+  forall o c, In (o, c) (tagged_stream (rendered_tokens wc sty g None
+        (margin_lines (prompt_margin prompt conts)) app width ri x y last vis)) ->
+  (o = FromZWE -> False) /\ (is_control c = true -> o = FromRenderer).
+Proof. exact prompt_margin_stream. Qed.
+Print Assumptions C10_prompt_margin.
+
+(* The multi-column completion menu: all rows, any display fragments / styles without the mark. *)
+Theorem C10_multicolumn_menu : forall wc sty g rows scroll vis cw l r mids app width ri x y last vis',
+  wc_ascii wc -> Forall (Forall mc_item_unmarked) rows ->
+  forall o c, In (o, c) (tagged_stream (rendered_tokens wc sty g None
+        (map (fun rm : list mc_item * bool => mc_row wc (fst rm) scroll vis cw l r (snd rm)) (combine rows mids))
+        app width ri x y last vis')) ->
+  (o = FromZWE -> False) /\ (is_control c = true -> o = FromRenderer).
+Proof. exact mc_rows_stream. Qed.
+Print Assumptions C10_multicolumn_menu.
+
+(* The literal search of HighlightSearchProcessor reports real occurrences, left to right. *)
+Theorem C10_find_lit_sound : forall pat s i skip a b, In (a, b) (find_lit pat s i skip) ->
+  b = a + len pat /\ i <= a /\ exists pre post, pre ++ post = s /\ len pre = a - i /\ startswith post pat = true.
+Proof. exact find_lit_sound. Qed.
+Print Assumptions C10_find_lit_sound.
+
+(* The chain hypotheses are satisfiable and the interesting paths reachable: "a<TAB>b" through
+   BeforeInput("> "), TabsProcessor(4) and a search for "b" with the cursor on it. *)
+Example C10_chain_satisfiable :
+  buffer_content [] [QBase (PBeforeInput [] [([], [62; 32])]); QTabs 4 [124] [46] [116]; QSearch false [98] None 0 2 false]
+                 [97; 9; 98] 0 2
+  = Some [[([], [62]); ([], [32]); ([], [97]); ([116], [124]);
+           (search_suffix S_SEARCH_CUR, [98]); ([], [32])]].
+Proof. exact chain_example. Qed.
+Print Assumptions C10_chain_satisfiable.
+
+(* ---------------------------------------------------------------- round 6: regenerated site tables *)
+
+(* The text argument of every Char(..)/_CHAR_CACHE[..] that the source stores into a screen cell
+   (table regenerated by the AST dataflow scan on every run): a control-free literal (checked here,
+   in Coq), one element of an iterated fragment text (C10_cell_clean), the guarded zero-width merge
+   (C10_merge_clean), the text of an existing cell (C10_rewrap_stable), or one of the five reviewed
+   application / key-data expressions (listed in Proofs/C10_SiteFacts.v as well as in the generator). *)
+Theorem C10_cell_text_sites : forall c t, In (c, t) cell_text_sites ->
+  (c = 0 /\ control_free t = true) \/ c = 1 \/ c = 2 \/ c = 3 \/ (c = 4 /\ In t reviewed_exprs).
+Proof. exact cell_text_sites_classified. Qed.
+Print Assumptions C10_cell_text_sites.
+
+(* Every self.write_raw(..) of output/vt100.py Vt100_Output (regenerated per run; write / write_raw
+   bodies and direct uses of the buffer are checked by the scan): a literal or an integer format that
+   is a run of well-formed CSI sequences / BS / BEL, the SGR cache, or set_title's format. *)
+Theorem C10_vt100_raw_sites : forall m k t, In (m, k, t) vt100_raw_sites ->
+  (k = 0 /\ seqs_ok (length t) t = true) \/ (k = 1 /\ seqs_ok (length t) (subst_i t [55]) = true) \/
+  k = 2 \/ (k = 4 /\ t = TITLE_FMT).
+Proof. exact vt100_raw_sites_classified. Qed.
+Print Assumptions C10_vt100_raw_sites.
+
+(* The constants of the model's Vt100_Output primitives are the source's on this run, and the
+   primitives send exactly them. *)
+Theorem C10_vt_model_tied :
+  forallb (fun m => existsb (site_eqb m) vt100_raw_sites) model_vt_literals = true /\
+  (forall s, vt_reset_attributes s = raw (lit 0) s) /\
+  (forall n s, vt_cursor_up n s = if n =? 0 then s else if n =? 1 then raw (lit 5) s else raw (subst_i (lit 6) (dec n)) s) /\
+  (forall n s, vt_cursor_backward n s = if n =? 0 then s else if n =? 1 then raw (lit 9) s else raw (subst_i (lit 10) (dec n)) s).
+Proof. exact vt_model_tied_summary. Qed.
+Print Assumptions C10_vt_model_tied.
+
+(* _copy_body with ANY vertical_scroll / vertical_scroll_2 (lines skipped, first line starting above the
+   window, zero-width escapes stored at negative rows): the statements of C10_tokens / C10_stream /
+   C10_raw_only_marked hold unchanged. *)
+Theorem C10_vscroll : forall wc sty g M pfx lines vs vs2 app width ri x y last vis,
+  wc_ascii wc -> pfx_marked M pfx -> (forall l, In l lines -> frags_marked M l) ->
+  (forall o c, In (o, c) (tagged_stream (rendered_tokens_v wc sty g pfx lines vs vs2 app width ri x y last vis)) ->
+     is_control c = true -> o = FromRenderer \/ o = FromZWE) /\
+  (forall t, In t (rendered_tokens_v wc sty g pfx lines vs vs2 app width ri x y last vis) ->
+     (torigin t = FromZWE -> tkind t = KRaw /\ concat_of M (ttext t)) /\
+     (torigin t = FromCell -> tkind t = KWrite /\ control_free (ttext t) = true)).
+Proof. exact vscroll_stream. Qed.
+Print Assumptions C10_vscroll.
